@@ -6,7 +6,7 @@ MANIFEST = {
     "level_note": "Enumerated (not symbolic) are only shapes and flags: kriging variant in {simple, ordinary} (quick) plus {universal(linear drift), detrended(callable trend), external drift} (thorough), model dimension 1 (quick) and 2 with symbolic anisotropy and rotation (thorough), 2 conditioning points (1 after 'fewer'), 2 target points (1-2 symbolic ones in the formula obligations), RandMeth with 2 modes, pre-state in {never called, called once with default storage} (thorough: also called without storing, called twice), next call in {positions passed again, positions reused}; the cache logic under proof does not depend on array sizes, the coherence obligations are therefore counted as discharged with this enumeration stated, while the conditioning-formula and data-honouring obligations (pointwise numpy code, 1-2 targets, n <= 2 conditioning points) are reported BOUNDED. Generic model: a user CovModel subclass with uninterpreted normalised correlation (hint cor(0) = 1 only in the data-honouring obligations) so the result holds for every model class; generic normalizer with uninterpreted transform pair. Stubs in symbolic runs (natively the real code runs, every obligation is also spot-checked natively): the (pseudo) inverse is an uninterpreted function of the matrix entries (T5: deterministic in its argument); compiled krigesum kernels -> their C15 postconditions; scipy cdist -> sqrt(sum (a-b)^2); random draws are ghost terms of (seed value, sub-stream index, element index) (T5, as in C11). Readings: 'positions unchanged' is the code's own test (exact equality since fix 10bf78d; the contract also passes positions inside the former np.allclose window and they now discharge); a model change is 'a change' when it exceeds the np.isclose window of CovModel.__eq__ (inside the window the generator keeps its model copy: open finding F15, 18 obligations kept failing); with nugget > 0 a repeated call with the SAME seed draws the next nugget noise by design, so those histories pass a new seed. NOT decided: the limit statement 'tends to mean + unconditional field far from the data' (krige_var -> sill, raw_krige -> 0 as distance -> infinity; needs decay of the model's correlation, a limit, residue); accuracy of scipy's pinv (T5); floats as reals (T1: natively sqrt(krige_var) amplifies the O(1e-16) rounding error of krige_var at data locations to O(1e-8)). Open finding F23: a direct call of cs.krige(...) at new positions between two generations desynchronises CondSRF's own raw_krige cache (4 obligations kept failing). Not an obligation: assigning cs.pos / cs.mesh_type directly (the primitives set_pos itself uses) does not invalidate stored fields.",
     "technique": "contract-based deductive verification: symbolic execution of the real Python methods against sidecar postconditions from the docstrings, VCs discharged by z3/cvc5; write/read-set facts by dataflow over the real ast",
 }
-MODULES = ["contracts.c07"]
+MODULES = ["contracts.c07", "contracts.c07_extra"]
 
 
 def run(rep, tier, seed, only=None):
